@@ -46,7 +46,8 @@ TREES = {
 # exactly 2^k matching entries (internal batches and buffers have power-of-two sizes)
 for _k in (10, 11, 12, 13):
     TREES['pow%d' % _k] = {'f%05d' % i: F(1 + i % 5) for i in range(2 ** _k)}
-ARGS = ['size', 'hardlinks', 'uid', 'line_count', 'length(name)']
+ARGS = ['size', 'hardlinks', 'uid', 'line_count', 'length(name)', 'size - 10', 'size / 2', '0 - length(name)']
+EXPR_ARGS = ('size - 10', 'size / 2', '0 - length(name)')        # values that are negative or fractional
 WHERES = [('none', None, lambda e: True), ('all', 'size gte 0', lambda e: True),
           ('files', 'is_file = true', lambda e: e['file']), ('some', 'name like %.txt', lambda e: e['name'].endswith('.txt')),
           ('nomatch', 'size gt 9000000000000000', lambda e: False), ('large', 'size gt 1000000', lambda e: e['size'] > 1000000),
@@ -94,6 +95,8 @@ def groups(tier, seed):
                     continue
                 if wname in SHORT_CIRCUIT and arg not in ('length(name)', 'size'):
                     continue
+                if arg in EXPR_ARGS and (tname not in ('two', 'three', 'mixed') or wname not in ('none', 'files', 'nomatch')):
+                    continue
                 if tname.startswith('pow'):
                     # expensive rows: one or two queries per tree (the subject needs seconds for thousands of buffered rows)
                     if arg != 'size' or wname not in ('none', 'files') or (tname == 'pow13' and tier == 'quick'):
@@ -131,7 +134,8 @@ def entries(root):
                             break
                         lc += b.count(b'\n')
             res.append({'name': n, 'file': isf, 'size': st.st_size, 'hardlinks': st.st_nlink, 'uid': st.st_uid,
-                        'line_count': lc, 'length(name)': len(n)})
+                        'line_count': lc, 'length(name)': len(n), 'size - 10': st.st_size - 10, 'size / 2': Fraction(st.st_size, 2),
+                        '0 - length(name)': -len(n)})
     return res
 
 
@@ -233,7 +237,7 @@ def eval_group(env, group, tier):
                 if exp is None:
                     continue
                 try:
-                    if real in ('count', 'sum', 'min', 'max'):
+                    if real in ('count', 'sum', 'min', 'max') and isinstance(exp, int):
                         ok = int(got) == exp
                     else:
                         ok = close(got, exp)
